@@ -216,7 +216,12 @@ def arrival_timing_task(ctx, examples, shard):
     small = st.tuples(
         st.lists(run, max_size=1), gap, st.sampled_from([1, 1, 2]), st.sampled_from(["ping", "stream"]), gap, st.sampled_from([1, 2, 5, 20]), st.lists(run, max_size=2), st.sampled_from([False, True, "alone", "alone"]), st.sampled_from([0, 0, 3, 8, 20, 60])
     ).map(lambda t: {"kind": "arrivals", "role": "server", "runs": t[0] + [(t[1], t[2], t[3]), (t[4], t[5], "padding")] + t[6], "move": {"at": len(t[0]), "respond": t[7], "pad": t[8]}})
-    strat = st.one_of(strat, strat, small)
+    # a peer that probes a new path before using it (RFC 9000 section 9.1): the first packets from the new address carry only PATH_CHALLENGE and
+    # padding - ack-eliciting, highest number so far, and not a reason to move the active path
+    probe = st.tuples(st.lists(run, max_size=1), gap, st.sampled_from([1, 2, 3]), st.sampled_from([False, False, True, "alone"]), st.sampled_from([40, 150, 300]), st.lists(run, max_size=1)).map(
+        lambda t: {"kind": "arrivals", "role": "server", "runs": t[0] + [(t[1], t[2], "challenge")] + t[5], "move": {"at": len(t[0]), "respond": t[3], "pad": t[4]}}
+    )
+    strat = st.one_of(strat, strat, small, probe)
 
     def body(ctx, case):
         arrival_timing_case(ctx, case)
